@@ -56,3 +56,169 @@ Proof.
   clear H. unfold tvalid, secs_of_hms. cbn [tsecs tfrac]. split; [lia|]. intros F. specialize (E F). subst s.
   replace (h * 3600 + m * 60 + 59) with (59 + (h * 60 + m) * 60) by ring. rewrite Z.mod_add by lia. reflexivity.
 Qed.
+
+(** ** Accessors: the fields of the reading; they recompose to the reading *)
+Theorem hms_spec t : 0 <= tsecs t ->
+  hms t = (hour_of (tsecs t), minute_of (tsecs t), second_of (tsecs t)).
+Proof.
+  intros H. unfold hms, udiv, urem, hour_of, minute_of, second_of.
+  assert (E1 : Z.quot (tsecs t) 60 = tsecs t / 60) by lia.
+  assert (E2 : Z.rem (tsecs t) 60 = tsecs t mod 60) by lia.
+  rewrite E1, E2. assert (0 <= tsecs t / 60) by lia.
+  assert (E3 : Z.quot (tsecs t / 60) 60 = tsecs t / 3600) by (rewrite Z.quot_div_nonneg by lia; rewrite Z.div_div by lia; reflexivity).
+  assert (E4 : Z.rem (tsecs t / 60) 60 = (tsecs t / 60) mod 60) by lia.
+  rewrite E3, E4. reflexivity.
+Qed.
+Theorem accessors_spec t : 0 <= tsecs t ->
+  hour t = hour_of (tsecs t) /\ minute t = minute_of (tsecs t) /\ second t = second_of (tsecs t) /\
+  nanosecond t = tfrac t /\ num_seconds_from_midnight t = tsecs t.
+Proof.
+  intros H. unfold hour, minute, second. rewrite (hms_spec t H). unfold nanosecond, num_seconds_from_midnight.
+  repeat split; reflexivity.
+Qed.
+Theorem fields_range s : 0 <= s < 86400 ->
+  0 <= hour_of s < 24 /\ 0 <= minute_of s < 60 /\ 0 <= second_of s < 60 /\
+  secs_of_hms (hour_of s) (minute_of s) (second_of s) = s.
+Proof. intros H. unfold hour_of, minute_of, second_of, secs_of_hms. lia. Qed.
+Theorem fields_of_hms h m s : 0 <= h -> 0 <= m < 60 -> 0 <= s < 60 ->
+  hour_of (secs_of_hms h m s) = h /\ minute_of (secs_of_hms h m s) = m /\ second_of (secs_of_hms h m s) = s.
+Proof. intros Hh Hm Hs. unfold hour_of, minute_of, second_of, secs_of_hms. lia. Qed.
+Theorem hour12_spec t : 0 <= tsecs t < 86400 ->
+  hour12 t = (12 <=? hour_of (tsecs t),
+              if hour_of (tsecs t) mod 12 =? 0 then 12 else hour_of (tsecs t) mod 12) /\
+  1 <= snd (hour12 t) <= 12.
+Proof.
+  intros H. unfold hour12. destruct (accessors_spec t ltac:(lia)) as (-> & _).
+  pose proof (fields_range _ H) as (Hh & _). set (h := hour_of (tsecs t)) in *. clearbody h.
+  unfold urem. replace (Z.rem h 12) with (h mod 12) by lia.
+  split.
+  - f_equal. lia.
+  - cbn [snd]. destruct (h mod 12 =? 0) eqn:E; lia.
+Qed.
+
+(** ** Single-field replacement: None exactly when the argument is outside the field's own range,
+    otherwise exactly the named field changes (with [fields_of_hms]); never a trap *)
+Theorem with_hour_spec t v : tvalid t -> in_u32 v = true ->
+  with_hour t v = Val (if v <? 24
+    then Some (mk_time (secs_of_hms v (minute_of (tsecs t)) (second_of (tsecs t))) (tfrac t)) else None).
+Proof. intros [H1 H2] Hv. tgo; try reflexivity; repeat (f_equal; try lia). Qed.
+Theorem with_minute_spec t v : tvalid t -> in_u32 v = true ->
+  with_minute t v = Val (if v <? 60
+    then Some (mk_time (secs_of_hms (hour_of (tsecs t)) v (second_of (tsecs t))) (tfrac t)) else None).
+Proof. intros [H1 H2] Hv. tgo; try reflexivity; repeat (f_equal; try lia). Qed.
+Theorem with_second_spec t v : tvalid t -> in_u32 v = true ->
+  with_second t v = Val (if v <? 60
+    then Some (mk_time (secs_of_hms (hour_of (tsecs t)) (minute_of (tsecs t)) v) (tfrac t)) else None).
+Proof. intros [H1 H2] Hv. tgo; try reflexivity; repeat (f_equal; try lia). Qed.
+Theorem with_nanosecond_spec t v : in_u32 v = true ->
+  with_nanosecond t v = if v <? 2000000000 then Some (mk_time (tsecs t) v) else None.
+Proof. intros Hv. tgo; reflexivity. Qed.
+(* the replaced value is again a valid state *)
+Theorem with_valid t h m s : tvalid t -> 0 <= h < 24 -> 0 <= m < 60 -> 0 <= s < 60 ->
+  tvalid (mk_time (secs_of_hms h m s) (tfrac t)).
+Proof. intros [H1 H2] Hh Hm Hs. unfold tvalid, secs_of_hms. cbn [tsecs tfrac]. lia. Qed.
+
+(** ** Addition of a duration: the one-leap-second timeline, for every state and every duration *)
+Definition add_result (s f d : Z) : ntime * Z :=
+  let r := tl_add s f d in (mk_time (fst (fst r)) (snd (fst r)), snd r).
+
+#[export] Hint Unfold rem_i64 div_i64 rem_u64 add_u64 rem_t div_t : tm.
+Ltac solve_in := unfold in_i32, in_u32, in_i64, in_u64, in_range, i32_min, i32_max, u32_max,
+  i64_min, i64_max, u64_max; lia.
+Ltac twr := repeat first
+  [ rewrite as_i32_id by solve_in | rewrite as_u32_id by solve_in
+  | rewrite as_i64_id by solve_in | rewrite as_u64_id by solve_in ].
+
+Lemma oas_body_spec t q r :
+  tvalid t -> -9223372036854776 <= q <= 9223372036854776 -> -1000000000 < r < 1000000000 ->
+  (0 < q -> 0 <= r) -> (q < 0 -> r <= 0) ->
+  oas_body t q r = Val (add_result (tsecs t) (tfrac t) (q * 1000000000 + r)).
+Proof.
+  destruct t as [s f]. unfold tvalid. cbn [tsecs tfrac]. intros [Hs Hf] Hq Hr Hqr1 Hqr2.
+  unfold oas_body, add_result, tl_add, readback, leap_of, tl_pos, shift_before. cbn [tsecs tfrac].
+  twr.
+  destruct (f <? 1000000000) eqn:Ef.
+  - (* no leap second on the line *)
+    replace (f >=? 1000000000) with false by lia. cbv beta iota. cbn [fst snd].
+    tunf.
+    repeat (rewrite ?rem_euclid_pos, ?div_euclid_pos by lia; tdif; tunf; try lia); twr; repeat (f_equal; try lia).
+  - replace (f >=? 1000000000) with true by lia.
+    repeat (rewrite ?rem_euclid_pos, ?div_euclid_pos by lia; tdif; tunf; cbv beta iota; cbn [fst snd]; try lia); twr; repeat (f_equal; try lia).
+Time Qed.
+
+Theorem add_spec t d : tvalid t -> valid d ->
+  overflowing_add_signed t d = Val (add_result (tsecs t) (tfrac t) (ns d)).
+Proof.
+  intros Ht Hd. unfold overflowing_add_signed.
+  rewrite (num_seconds_spec d Hd), (subsec_nanos_spec d Hd). unfold bind.
+  destruct Hd as [Hd1 Hd2]. unfold in_rng, Proofs.C06.G, RMIN, RMAX in *.
+  pose proof (Z.quot_rem' (ns d) 1000000000) as E.
+  set (q := Z.quot (ns d) 1000000000) in *. set (r := Z.rem (ns d) 1000000000) in *.
+  rewrite (oas_body_spec t q r Ht) by (subst q r; lia).
+  do 2 f_equal. lia.
+Qed.
+
+(* shape of the result: a valid state; the carry is a whole number of days; a leap reading can
+   only come out of a leap operand that was not left *)
+Theorem add_result_range s f d : 0 <= s < 86400 -> 0 <= f < 2000000000 ->
+  let '(t', c) := add_result s f d in
+  tvalid t' /\ c mod 86400 = 0 /\
+  (tfrac t' >= 1000000000 -> f >= 1000000000 /\ tsecs t' = s /\ c = 0 /\ tfrac t' = f + d).
+Proof.
+  intros Hs Hf. unfold add_result, tl_add, readback, leap_of, tl_pos, shift_before, tvalid.
+  destruct (f <? 1000000000) eqn:Ef; cbv beta iota; cbn [fst snd tsecs tfrac].
+  - lia.
+  - tdif; cbv beta iota; cbn [fst snd tsecs tfrac]; [lia|].
+    tdif; cbv beta iota; cbn [fst snd tsecs tfrac]; lia.
+Qed.
+
+(* the non-leap case, for the properties that exclude leap operands: exact arithmetic modulo one
+   day on the nanosecond count, with the carry in whole days *)
+Theorem add_nonleap t d : tvalid t -> tfrac t < 1000000000 -> valid d ->
+  let n := tsecs t * 1000000000 + tfrac t + ns d in
+  overflowing_add_signed t d =
+    Val (mk_time ((n / 1000000000) mod 86400) (n mod 1000000000),
+         n / 1000000000 - (n / 1000000000) mod 86400).
+Proof.
+  intros Ht Hf Hd. rewrite (add_spec t d Ht Hd).
+  unfold add_result, tl_add, readback, leap_of, tl_pos, shift_before.
+  replace (tfrac t <? 1000000000) with true by lia. cbv beta iota zeta. cbn [fst snd].
+  repeat (f_equal; try lia).
+Qed.
+Theorem add_nonleap_exact t d : tvalid t -> tfrac t < 1000000000 -> valid d ->
+  exists t' c, overflowing_add_signed t d = Val (t', c) /\
+    tvalid t' /\ tfrac t' < 1000000000 /\ c mod 86400 = 0 /\
+    (tsecs t' + c) * 1000000000 + tfrac t' = tsecs t * 1000000000 + tfrac t + ns d.
+Proof.
+  intros Ht Hf Hd. pose proof (add_nonleap t d Ht Hf Hd) as E. cbv zeta in E.
+  eexists. eexists. split; [exact E|]. unfold tvalid. cbn [tsecs tfrac]. lia.
+Qed.
+
+(** ** Offset shifts: whole seconds move modulo one day, the fraction (leap mark) is kept *)
+Theorem add_offset_spec t off : tvalid t -> -86400 < off < 86400 ->
+  overflowing_add_offset t off =
+    Val (mk_time ((tsecs t + off) mod 86400) (tfrac t), (tsecs t + off) / 86400).
+Proof.
+  intros [Hs Hf] Ho. unfold overflowing_add_offset. twr. tunf.
+  repeat (rewrite ?rem_euclid_pos, ?div_euclid_pos by lia; tdif; tunf; try lia); twr; reflexivity.
+Qed.
+Theorem sub_offset_spec t off : tvalid t -> -86400 < off < 86400 ->
+  overflowing_sub_offset t off =
+    Val (mk_time ((tsecs t - off) mod 86400) (tfrac t), (tsecs t - off) / 86400).
+Proof.
+  intros [Hs Hf] Ho. unfold overflowing_sub_offset. twr. tunf.
+  repeat (rewrite ?rem_euclid_pos, ?div_euclid_pos by lia; tdif; tunf; try lia); twr; reflexivity.
+Qed.
+Theorem offset_shift_spec t off : tvalid t -> -86400 < off < 86400 ->
+  overflowing_add_offset t off =
+    Val (let '((s, f), days) := tl_shift (tsecs t) (tfrac t) off in (mk_time s f, days)) /\
+  overflowing_sub_offset t off =
+    Val (let '((s, f), days) := tl_shift (tsecs t) (tfrac t) (- off) in (mk_time s f, days)).
+Proof.
+  intros Ht Ho. rewrite add_offset_spec, sub_offset_spec by assumption. unfold tl_shift.
+  split; [reflexivity|]. replace (tsecs t + - off) with (tsecs t - off) by lia. reflexivity.
+Qed.
+Theorem offset_shift_range s off : 0 <= s < 86400 -> -86400 < off < 86400 ->
+  0 <= (s + off) mod 86400 < 86400 /\ -1 <= (s + off) / 86400 <= 1 /\
+  ((s + off) / 86400) * 86400 + (s + off) mod 86400 = s + off.
+Proof. intros Hs Ho. lia. Qed.
